@@ -68,6 +68,7 @@ REPORT_LAST = (
     "C14/preview-wrong-at-path-reused-after-deletion",
     "C14/preview-get_file-looks-up-new-file-id-in-original-tree",
     "C14/git-directory-move-leaves-children-at-old-index-paths",
+    "C14/preview-lists-path-missing-after-apply:contentless:git",
     "C14/applied-tree-has-path-missing-from-preview:git")
 
 SIG_ATTR = {
@@ -94,8 +95,17 @@ def compare(facts, pv, av, fmt="2a", git_dir_move=False, old_paths=None):
                 # one root cause, many faces: see known_findings
                 out.append((GIT_DIR_MOVE, [p, pv.get(p), av.get(p)]))
             elif p not in av:
+                if tag and pv[p].get("kind") is None:
+                    cls = "contentless"      # whatever else it also is
                 out.append(("C14/preview-lists-path-missing-after-apply:" +
                              cls + tag, [p, pv[p]]))
+            elif p in old_paths and \
+                    old_paths[p].get("has_filename") is False:
+                # gone from disk before the transform started and not touched
+                # by it: previews list directory contents from disk
+                out.append((
+                    "C14/preview-omits-versioned-file-missing-from-disk" + tag,
+                    [p, av[p]]))
             elif p in old_paths and (
                     av[p].get("has_filename") is False or
                     (av[p].get("text"), av[p].get("target")) ==
@@ -177,6 +187,9 @@ def check_case(case, env, build):
         with open(os.path.join(path, p), "wb") as f:
             f.write(bz.cbytes(content))
     bz.age_files(path)
+    for p in case.get("missing", []):
+        # versioned files that are gone from disk before the transform starts
+        os.unlink(os.path.join(path, p))
     del wt
     wt = bz.open_tree(path)
     ids = wt.supports_setting_file_ids()
@@ -229,8 +242,15 @@ def check_case(case, env, build):
         git_dir_move = case["fmt"] == "git" and any(
             tt.tree_kind(t) == "directory" and tt.path_changed(t)
             for t in list(tt._tree_id_paths))
+        # same final name, one side versioned without contents: on the
+        # unchanged tree 'duplicate' reports and repairs this, so none is left
+        clash = P.name_clash_with_contentless(tt)
         preview = tt.get_preview_tree()
         pv = P.tree_view(preview, ids, ids)
+        # every new content must be on disk afterwards (versioned or not)
+        from breezy.transform import FinalPaths
+        fp = FinalPaths(tt)
+        expected_new = {fp.get_path(t): k for t, k in tt._new_contents.items()}
         facts = {p: P.entry_facts(tt, preview, p) for p in pv}
         classes = {p: f[0] for p, f in facts.items()}
         try:
@@ -246,6 +266,14 @@ def check_case(case, env, build):
             import traceback
             names = [f.name for f in traceback.extract_tb(e.__traceback__)]
             partial = bz.snapshot_fs(path) != fs0
+            if clash:
+                # its own class: must not hide behind the listed F18 ones
+                return violation(
+                    "C14/apply-fails-on-unreported-name-clash-with-contentless"
+                    "-versioned-entry:%s%s" % (
+                        type(e).__name__,
+                        ":tree-partially-applied" if partial else ""),
+                    [case, kinds, [list(c) for c in clash], str(e)[:300]])
             return violation(
                 "C14/apply-raises-after-conflict-check:%s@%s%s" % (
                     type(e).__name__, names[-1],
@@ -253,6 +281,16 @@ def check_case(case, env, build):
                 [case, kinds, names[-4:], str(e)[:300]])
     finally:
         _fin(tt)
+    fs1 = bz.snapshot_fs(path)
+    lost = sorted(p for p, k in expected_new.items()
+                  if p not in fs1 or fs1[p][0] != k)
+    if lost and not git_dir_move:
+        return violation("C14/new-content-missing-after-apply",
+                         [case, kinds, lost, X.control_leftovers(path)])
+    if clash:
+        return violation(
+            "C14/apply-accepts-unreported-name-clash-with-contentless-"
+            "versioned-entry", [case, kinds, [list(c) for c in clash]])
     wt2 = bz.open_tree(path)
     try:
         av = P.tree_view(wt2, ids, ids)
@@ -368,10 +406,104 @@ def gen_script(draw):
     if draw(st.booleans()):
         free = [n for n in ("u", "v") if n not in snap]
         extras = [[n, "extra\n"] for n in free[:draw(st.integers(1, 2))]]
-    tr = P.Tracker(snap, {p: "file" for p, _ in extras})
+    # shape B (below) may want its victim to be gone from disk before the
+    # transform starts; a missing file the transform never touches is not
+    # generated (previews omit it: reported, not part of this check)
+    shape_b = draw(st.integers(0, 3)) == 0
+    missing = []
+    if shape_b and draw(st.integers(0, 2)) == 0:
+        cands = sorted(p for p, k in snap.items() if k != "directory")
+        if cands:
+            missing = [draw(st.sampled_from(cands))]
+    tr = P.Tracker(snap, {p: "file" for p, _ in extras}, missing)
     base_ids = sorted(f for f in m if f != tm.ROOT_ID)
     script = []
     nid = 0
+
+    def emit(op):
+        if tr.legal(op):
+            tr.apply(op)
+            script.append(op)
+            return True
+        return False
+
+    def tree_dirs():
+        return [list(r) for r in tr.refs() if r[0] == "t" and
+                tr.s[r]["tree"] and tr.final_kind(r) == "directory"]
+
+    if draw(st.integers(0, 3)) == 0:
+        # shape A: new directories nested in new directories, a new entry in
+        # the innermost; the entry is moved / renamed, then a directory it
+        # was created in is (limbo bookkeeping of DiskTreeTransform)
+        depth = draw(st.integers(2, 4))
+        parent = draw(st.sampled_from([["r"]] + tree_dirs()))
+        chain = []
+        for i in range(depth):
+            nid += 1
+            fid = "n%d-id" % nid if draw(st.integers(0, 5)) else None
+            emit(["new_dir", "x%d" % i, parent, fid])
+            parent = ["n", tr.n - 1]
+            chain.append(parent)
+        nid += 1
+        fid = "n%d-id" % nid if draw(st.integers(0, 5)) else None
+        if draw(st.integers(0, 3)):
+            emit(["new_file", "f0", parent, draw(tm.text_strategy()), fid,
+                  None])
+        else:
+            emit(["new_dir", "f0", parent, fid])
+        leaf = ["n", tr.n - 1]
+        outside = [["r"]] + tree_dirs()
+
+        def adjust_leaf(tag):
+            if draw(st.booleans()):
+                emit(["adjust", "y" + tag, None, leaf])
+            else:
+                dest = draw(st.sampled_from(outside + chain[:-1]))
+                emit(["adjust", None, dest, leaf])
+
+        def adjust_dir(tag):
+            d = draw(st.sampled_from(chain[1:] + chain[-1:]))
+            if draw(st.booleans()):
+                emit(["adjust", "z" + tag, None, d])
+            else:
+                emit(["adjust", None, draw(st.sampled_from(outside)), d])
+
+        adjust_leaf("1")
+        adjust_dir("1")
+        for j in range(draw(st.integers(0, 2))):
+            if draw(st.booleans()):
+                adjust_leaf(str(j + 2))
+            else:
+                adjust_dir(str(j + 2))
+
+    if shape_b:
+        # shape B: an entry with contents takes the name of an entry that is
+        # versioned, has no contents and is known to the transform
+        cands = [r for r in tr.refs() if r[0] == "t" and tr.s[r]["versioned"]
+                 and tr.s[r]["tree"] and tr.s[r]["kind"] != "directory"]
+        if missing:
+            cands = [("t", missing[0])]
+        if cands:
+            v = draw(st.sampled_from(cands))
+            e = tr.s[v]
+            if e["kind"] is None:
+                emit(["adjust", None, None, list(v)])     # make it known
+            else:
+                emit(["delete_contents", list(v)])
+            how = draw(st.sampled_from(["new_file", "new_dir", "rename"]))
+            nid += 1
+            fid = "n%d-id" % nid if draw(st.booleans()) else None
+            if how == "new_file":
+                emit(["new_file", e["name"], list(e["parent"]),
+                      draw(tm.text_strategy()), fid, None])
+            elif how == "new_dir":
+                emit(["new_dir", e["name"], list(e["parent"]), fid])
+            else:
+                others = [r for r in tr.refs() if r != v and r[0] == "t" and
+                          tr.final_kind(r) is not None]
+                if others:
+                    emit(["adjust", e["name"], list(e["parent"]),
+                          list(draw(st.sampled_from(others)))])
 
     def anyref():
         return list(draw(st.sampled_from([("r",)] + tr.refs())))
@@ -414,6 +546,12 @@ def gen_script(draw):
             name = draw(st.sampled_from([None] + NAMES))
             parent = draw(st.sampled_from([None, None] + [
                 list(x) for x in [("r",)] + tr.refs()]))
+            if parent is not None and r[0] == "n" and parent[0] == "n" and \
+                    draw(st.integers(0, 9)) != 0:
+                # new entry below a new entry: mostly avoided here (loops of
+                # new directories crash in the limbo bookkeeping, listed
+                # finding); shape A covers the well-formed part
+                parent = None
             ops = [["adjust", name, parent, r]]
         elif k == "version":
             nid += 1
@@ -434,7 +572,8 @@ def gen_script(draw):
             if tr.legal(op):
                 tr.apply(op)
                 script.append(op)
-    return {"fmt": fmt, "base": base, "extras": extras, "script": script}
+    return {"fmt": fmt, "base": base, "extras": extras, "missing": missing,
+            "script": script}
 
 
 def enum_symlink_dir(tier):
